@@ -2,6 +2,10 @@
 from fractions import Fraction
 
 
+class _IntSub(int):
+    """An int subclass (what IntEnum members and numpy-free user types look like): still an integer."""
+
+
 def T(kind, v=None):
     return {'__t__': kind, 'v': v}
 
@@ -28,6 +32,8 @@ def dec(x):
             return complex(v[0], v[1])
         if k == 'set':
             return set(v)
+        if k == 'intsub':
+            return _IntSub(v)
         if k == 'sysexdata':
             import mido
             return type(mido.Message('sysex').data)(dec(i) for i in v)
